@@ -247,7 +247,9 @@ impl Engine for TraceEngine {
             let (m, planted, chain) = gen_case(rng);
             // one time in three the machine has already run another failing program (no clear in
             // between): the trace of the measured run must not depend on it
-            let prev = if rng.chance(1, 3) {
+            // (not when the planted failure is the read of an undefined global: without a clear the
+            // globals of the earlier program are still there and the read may succeed)
+            let prev = if rng.chance(1, 3) && !planted.contains("756e646566696e6564") {
                 let (pm, _, _) = gen_case(rng);
                 format!(" prev={}", module_tok(&pm))
             } else {
